@@ -48,17 +48,12 @@ CHECKS = {
         "The generated Decode/Validate layer is not yet covered by this check (see DESIGN.md); floats and pattern are outside.",
    design="4 C03", technique="symbolic execution of go/ssa + SMT over fully symbolic validator parameters"),
  "C09": dict(
-   text="Kernel claim so far: bounded symbolic model checking of internal/bitset.Set (one step from an arbitrary pre-state), bitset.Build and ir.JSONFields.RequiredMask "
-        "(bit i set exactly when predicate i holds, across byte boundaries up to 20/33 members). The generated security gate is not yet covered by this check.",
-   design="4 C09", technique="symbolic execution of go/ssa + SMT, one inductive step from an arbitrary state"),
- "C05": dict(
-   text="Bounded symbolic model checking of routers GENERATED in this run by the real generator from /repo's templates (8 curated + 10 (quick) / 120 (thorough) seeded "
-        "route sets over a small segment grammar; the route-set dimension is enumerated, not solved). For every request path '/'+0..4 (7) fully symbolic bytes, methods "
-        "GET/POST/PUT(/OPTIONS), with and without a path prefix, and for every template instantiated with symbolic argument values, the real FindPath and ServeHTTP are "
-        "executed and compared with a reference matcher built from the templates: method and template-instance soundness (P1), no slash in arguments (P1'), static-beats-"
-        "templated (P2), completeness for values avoiding slashes/tail characters (P3, with the 405-by-more-specific-template clause), 404/405/Allow (P4), lookup-vs-serving "
-        "agreement with and without prefix (P5). Three router defects are carried as known findings with input-region keys.",
-   design="4 C05", technique="symbolic execution of generated Go (go/ssa) + SMT, differential against a template-derived reference matcher"),
+   text="Bounded symbolic model checking of (a) internal/bitset.Set/Build and ir.JSONFields.RequiredMask (one step from an arbitrary state; byte boundaries to 20/33 members), "
+        "(b) the security gate GENERATED in this run from /repo's templates: every requirement structure over 2 schemes, 12 seeded (thorough: all 255) over 3 schemes, global security "
+        "with overrides / explicit empty / anonymous alternative, and 20 schemes straddling the mask bytes; per request the presence of each credential and the SecurityHandler verdict "
+        "(accept / skip / error) are symbolic; asserts handler-runs => some alternative fully accepted, refused => 401 and one response, unmentioned schemes never consulted, and the 'if' "
+        "direction outside the recorded fail-closed finding; (c) credential transport client->server for apiKey header/query/cookie, bearer, basic (real base64), oauth2 scopes with symbolic tokens.",
+   design="4 C09", technique="symbolic execution of generated Go (go/ssa) + SMT; requirement structures enumerated, request dimension symbolic"),
 }
 
 NA = {
